@@ -29,13 +29,14 @@ def lemma_hooks(w, prog, roles, lemmas: Dict[str, str]):
 
 
 def _job(job) -> List[Dict[str, Any]]:
-    idx, op, variant, boxname = job
+    idx, op, variant, boxname = job[:4]
+    split = job[4] if len(job) > 4 else None
     prog = Program()
     roles = prog.roles()[idx]
     mod = roles.model.module.name
     entry = f"{roles.model.name}.{op}"
     line = roles.model.lookup(op).node.lineno
-    case = f"{variant}; {boxname}"
+    case = f"{variant}; {boxname}" + (f"; n={split[0]}, players={split[1]}" if split else "")
     out: List[Dict[str, Any]] = []
 
     def inst(rule, verdict, construct, message="", detail=None, m=mod, fn=entry, ln=line):
@@ -52,6 +53,8 @@ def _job(job) -> List[Dict[str, Any]]:
     else:
         custom = False
         kw = {"n": (2, 2) if variant == "n=2" else (3, 8)}
+    if split is not None:
+        kw["n"], kw["msize"] = split
     from .c06 import install_lemmas
 
     lem: Dict[str, str] = {}
@@ -126,6 +129,17 @@ def run(prog: Program, rep: Report, tier: str = "quick") -> None:
             if op != "rate":
                 jobs.append((i, op, "n=2", "sigma>=1e-4,tau>=0"))
                 jobs.append((i, op, "n>=3", "sigma>=1e-4,tau>=0"))
+    if tier == "thorough":
+        # finer partition of the box: exact team counts and team-size bands (tighter intervals, same obligations)
+        for i in range(len(roles)):
+            for nn in ((2, 2), (3, 3), (4, 5), (6, 8)):
+                for mm in ((1, 1), (2, 4), (5, 16)):
+                    for b in BOXES:
+                        jobs.append((i, "rate", "ranks/default", b, (nn, mm)))
+                    for op in PUBLIC_OPS:
+                        if op != "rate" and nn != (2, 2):
+                            jobs.append((i, op, "n>=3", "sigma>=1e-4,tau>=0", (nn, mm)))
+    rep.extra["abstract_runs"] = len(jobs)
     seen = set()
     for lst in parallel_map(_job, jobs):
         for d in lst:
